@@ -23,6 +23,7 @@ Full statement kept here for the record:
 import KafkaVerif.Lemmas.RecordBatchSpec
 import KafkaVerif.Lemmas.RecordWriter
 import KafkaVerif.Lemmas.Pages
+import KafkaVerif.Gen.RecordConsts
 
 namespace KV.Props.C05
 open KV KV.RW KV.Spec.RB
@@ -148,6 +149,38 @@ theorem v1_write_spec (c : Crcs) (h1 : ∀ b, c.ieee b < M32) (h2 : ∀ b, c.cas
     (attrs now : Int) (recs : List PRec) (hwf : ∀ m ∈ msgsOfV1 attrs now 0 recs, m.WF) :
     decodeSet c (writeV1 c.ieee attrs now 0 recs) = some ((msgsOfV1 attrs now 0 recs).map Entry.msg) :=
   writeV1_spec c h1 h2 attrs now recs hwf
+
+/-! ## Part E — constants regenerated from the Go sources on every run (`go/extract records`) -/
+
+/-- The header sizes, back-patch offsets, attribute masks and magic-byte offset that kafka-go's sources state NOW
+are the ones of the reference layout (`Spec/RecordBatch`) and of the writer models: 61 = length of a Spec batch
+without records; 49 = what follows the length field; the positions patched by `writeToVersion2` are the Spec's
+field offsets of lastOffsetDelta, firstTimestamp, maxTimestamp, count, (CRC start), batchLength, crc;
+compression = attributes mod 8; control = bit 5; magic byte at 16. -/
+theorem gen_consts_match_spec :
+    (encFrame (fun _ => 0) ⟨0, 0, 0, 0, 0, 0, 0, 0, 0, 0, []⟩).length = Gen.RecordConsts.recordBatchHeaderSize
+    ∧ Gen.RecordConsts.legacyHeaderAfterLength + (i64 0 ++ i32 0).length = Gen.RecordConsts.recordBatchHeaderSize
+    ∧ Model.RecordWriter.recordBatchSizeWith Model.RecordWriter.tsDelta 0 0 [] = Gen.RecordConsts.recordBatchHeaderSize
+    ∧ Gen.RecordConsts.v2PatchOffsets =
+        [ (i64 0 ++ i32 0 ++ i32 0 ++ i8 0 ++ u32 0 ++ i16 0).length,
+          (i64 0 ++ i32 0 ++ i32 0 ++ i8 0 ++ u32 0 ++ i16 0 ++ i32 0).length,
+          (i64 0 ++ i32 0 ++ i32 0 ++ i8 0 ++ u32 0 ++ i16 0 ++ i32 0 ++ i64 0).length,
+          (i64 0 ++ i32 0 ++ i32 0 ++ i8 0 ++ u32 0 ++ i16 0 ++ i32 0 ++ i64 0 ++ i64 0 ++ i64 0 ++ i16 0 ++ i32 0).length,
+          (i64 0 ++ i32 0 ++ i32 0 ++ i8 0 ++ u32 0).length,
+          (i64 0).length,
+          (i64 0 ++ i32 0 ++ i32 0 ++ i8 0).length ]
+    ∧ Gen.RecordConsts.v2LengthPrefix = [(i64 0 ++ i32 0).length]
+    ∧ (∀ a : Int, codecOf a = a % ((Gen.RecordConsts.compressionMask + 1 : Nat) : Int))
+    ∧ Gen.RecordConsts.legacyCompressionMask = Gen.RecordConsts.compressionMask
+    ∧ (∀ a : Int, isControl a = decide ((a / (Gen.RecordConsts.controlConst : Int)) % 2 = 1))
+    ∧ Gen.RecordConsts.transactionalConst * 2 = Gen.RecordConsts.controlConst
+    ∧ (∀ bs : Bytes, magicOf bs = bs[Gen.RecordConsts.magicByteOffsetConst]?) := by
+  refine ⟨by simp [encFrame, frameBody, Gen.RecordConsts.recordBatchHeaderSize], by decide, rfl, ?_, ?_, ?_, rfl, ?_, rfl, ?_⟩
+  · simp [Gen.RecordConsts.v2PatchOffsets]
+  · simp [Gen.RecordConsts.v2LengthPrefix]
+  · intro a; rfl
+  · intro a; simp only [isControl, Gen.RecordConsts.controlConst]; rfl
+  · intro bs; rfl
 
 /-! ## Part D — pages (protocol/buffer.go) -/
 
